@@ -28,6 +28,15 @@ theorem singleByte_lawful (t : List Nat) : (singleByte t).Lawful where
     · split <;> exact utf8Len_single _
   flush_small := by intro s; simp [singleByte, utf8Len]
   enc_ascii := by intro ch h; simp [singleByte, h]
+  enc_size := by
+    intro ch bs h
+    simp only [singleByte] at h
+    split at h
+    · simp at h; subst h; simp
+    · simp only [tblFind] at h
+      split at h
+      · simp at h; subst h; simp
+      · simp at h
 
 theorem singleByteEnc_lawful (t : List Nat) : (⟨singleByte t, false⟩ : Encoding).Lawful :=
   ⟨singleByte_lawful t, by intro h; cases h⟩
@@ -76,6 +85,14 @@ theorem toy2_lawful : toy2.Lawful where
     | none => simp [toy2, utf8Len]
     | some l => exact utf8Len_single _
   enc_ascii := by intro ch h; simp [toy2, h]
+  enc_size := by
+    intro ch bs h
+    simp only [toy2] at h
+    split at h
+    · simp at h; subst h; simp
+    · split at h
+      · simp at h; subst h; simp
+      · simp at h
 
 theorem toy2Enc_lawful : toy2Enc.Lawful := ⟨toy2_lawful, by intro h; cases h⟩
 
@@ -132,5 +149,14 @@ theorem utf8Codec_lawful : utf8Codec.Lawful where
   enc_ascii := by
     intro ch h
     simp [utf8Codec, Utf8.encodeChar, h]
+  enc_size := by
+    intro ch bs h
+    simp only [utf8Codec, Utf8.encodeChar, Option.some.injEq] at h
+    subst h
+    split
+    · simp
+    · split
+      · simp
+      · split <;> simp
 
 end LolHtml.Enc
